@@ -3,7 +3,7 @@ CANON = True
 
 import ast
 
-from .. import compq, pyq
+from .. import boolfn, pm, compq, pyq
 from ..pysrc import dotted, norm, flat
 from .c05 import check_scopefn_params
 from .c06 import check_scope_routing
@@ -67,14 +67,18 @@ def check(ctx, src):
     upd = [norm(s) for s in loop.body[-2:]]
     ctx.check(upd == ["defined.update(has.intersection(undefined))", "undefined = [name for name in undefined if name not in has]"], "OUTERVAR-RESOLVE", f"{SC}|visit_OuterVar|bookkeeping",
               f"per-scope bookkeeping is {upd}", SC, loop.lineno, witness="a name defined in an enclosing function is also declared global", detail="defined += has∩undefined; undefined -= has")
-    fb = [n for n in v.body if isinstance(n, ast.Return)]
-    ctx.check(len(fb) == 1 and norm(fb[0].value) == "[asty.Nonlocal(node, names=node.names)] if node.names else []", "OUTERVAR-RESOLVE", f"{SC}|visit_OuterVar|fallback", "the fallback must emit a plain Nonlocal of all names",
+    ctx.check(pm.find(v, "return [asty.Nonlocal(node, names=node.names)] if node.names else []") is not None, "OUTERVAR-RESOLVE", f"{SC}|visit_OuterVar|fallback", "the fallback must emit a plain Nonlocal of all names",
               SC, v.lineno, detail="Nonlocal(node.names)")
     gn = rm.func("compile_global_or_nonlocal")
     ctx.require(gn is not None, "compile_global_or_nonlocal not found")
-    r = pyq.contains(gn, lambda n: isinstance(n, ast.Assign) and norm(n.targets[0]) == "ret" and isinstance(n.value, ast.IfExp))
-    ctx.check(r is not None and norm(r.value.test) == "root == 'global'" and norm(r.value.body) == "asty.Global(expr, names=names)" and norm(r.value.orelse) == "OuterVar(expr, compiler.scope, names)",
-              "OUTERVAR-RESOLVE", f"{R}|compile_global_or_nonlocal|node", "`global` must always give ast.Global, `nonlocal` an OuterVar bound to the declaring scope", R, gn.lineno, detail="Global if root == 'global' else OuterVar(scope)")
+    gs = [n for n in ast.walk(gn) if isinstance(n, ast.Call) and dotted(n.func) == "asty.Global"]
+    os_ = [n for n in ast.walk(gn) if isinstance(n, ast.Call) and dotted(n.func) == "OuterVar"]
+    AT = boolfn.Atoms(G="root == 'global'", S="syms")
+    v1, c1 = boolfn.equivalent(gs, gn, AT, lambda e: e["G"] and e["S"])
+    v2, c2 = boolfn.equivalent(os_, gn, AT, lambda e: (not e["G"]) and e["S"])
+    bound = all(len(o.args) >= 2 and norm(o.args[1]) == "compiler.scope" for o in os_) and bool(os_)
+    ctx.decide("OUTERVAR-RESOLVE", f"{R}|compile_global_or_nonlocal|node", None if v1 is None or v2 is None else (v1 and v2 and bound),
+               "`global` must always give ast.Global, `nonlocal` an OuterVar bound to the declaring scope", R, gn.lineno, detail="Global if root == 'global' else OuterVar(scope)")
     nm = pyq.contains(gn, lambda n: isinstance(n, ast.Assign) and norm(n) == "names = [mangle(s) for s in syms]")
     ctx.check(nm is not None, "OUTERVAR-RESOLVE", f"{R}|compile_global_or_nonlocal|names", "declared names are not mangled in declaration order", R, gn.lineno, detail="[mangle(s) for s in syms]")
     # --- declaration error
